@@ -7,6 +7,7 @@
      [k |-> "reg",  kind, fd, off]       a register r / sr (64 bit unsigned / signed) or w / sw (32 bit)
                                          preloaded from the 8 bytes at (fd, off)
      [k |-> "const", v]                  a constant, v an n-byte two's-complement word
+     [k |-> "field", pos, bits, fd, off] a bit field of `bits` bits at bit `pos` of the byte at (fd, off)
      [k |-> "bin",  op, l, r]            op in add sub mul floordiv mod and or xor lsh rsh
      [k |-> "neg", a]   [k |-> "abs", a]
    Exact values are n-byte two's-complement words (Wide.tla), n chosen by the harness so large that
@@ -29,20 +30,23 @@ FmtSigned(f) == f \in {"b", "h", "i", "q"}
 (* ---- leaves: "each operand taking the value its own size and signedness define" ------------- *)
 (* bytes8 = the 8 bytes at the leaf's location (a variable uses the first FmtSize bytes) *)
 LeafVal(e, bytes8, n) ==
-    IF e.k = "var" THEN
+    IF e.k = "field" THEN WFromInt((bytes8[1] \div (2 ^ e.pos)) % (2 ^ e.bits), n)
+    ELSE IF e.k = "var" THEN
         (IF FmtSigned(e.fmt) THEN WSext(WTrunc(bytes8, FmtSize(e.fmt)), n)
                              ELSE WZext(WTrunc(bytes8, FmtSize(e.fmt)), n))
     ELSE CASE e.kind = "r" -> WZext(bytes8, n)
            [] e.kind = "sr" -> WSext(bytes8, n)
            [] e.kind = "w" -> WZext(WTrunc(bytes8, 4), n)
            [] e.kind = "sw" -> WSext(WTrunc(bytes8, 4), n)
-LeafBytes(e) == IF e.k = "var" THEN FmtSize(e.fmt) ELSE IF e.kind \in {"w", "sw"} THEN 4 ELSE 8
+LeafBytes(e) == IF e.k = "field" THEN 1 ELSE IF e.k = "var" THEN FmtSize(e.fmt)
+                ELSE IF e.kind \in {"w", "sw"} THEN 4 ELSE 8
 
 (* ---- typing ------------------------------------------------------------------------------- *)
 RECURSIVE Signed(_)
 Signed(e) ==
     CASE e.k = "var" -> FmtSigned(e.fmt)
       [] e.k = "reg" -> e.kind \in {"sr", "sw"}
+      [] e.k = "field" -> FALSE
       [] e.k = "const" -> WIsNeg(e.v)
       [] e.k = "neg" -> TRUE
       [] e.k = "abs" -> FALSE
@@ -52,7 +56,7 @@ Signed(e) ==
 
 RECURSIVE Narrow(_)
 Narrow(e) ==    \* does the tree contain an operand at most 4 bytes wide?
-    CASE e.k \in {"var", "reg"} -> LeafBytes(e) <= 4
+    CASE e.k \in {"var", "reg", "field"} -> LeafBytes(e) <= 4
       [] e.k = "const" -> FALSE
       [] e.k \in {"neg", "abs"} -> Narrow(e.a)
       [] e.k = "bin" -> Narrow(e.l) \/ Narrow(e.r)
@@ -60,7 +64,7 @@ Width(e, dstsize) == IF Narrow(e) \/ dstsize <= 4 THEN 32 ELSE 64
 
 RECURSIVE RingOnly(_)
 RingOnly(e) ==
-    CASE e.k \in {"var", "reg", "const"} -> TRUE
+    CASE e.k \in {"var", "reg", "const", "field"} -> TRUE
       [] e.k = "neg" -> RingOnly(e.a)
       [] e.k = "abs" -> FALSE
       [] e.k = "bin" -> e.op \notin {"floordiv", "mod", "rsh"} /\ RingOnly(e.l) /\ RingOnly(e.r)
@@ -90,7 +94,7 @@ BinVals(op, a, b, n) ==
 (* L is a function from leaf locations <<fd, off>> to their 8 initial bytes; n the word length *)
 RECURSIVE Val(_, _, _)
 Val(e, L, n) ==
-    CASE e.k \in {"var", "reg"} -> {LeafVal(e, L[<<e.fd, e.off>>], n)}
+    CASE e.k \in {"var", "reg", "field"} -> {LeafVal(e, L[<<e.fd, e.off>>], n)}
       [] e.k = "const" -> {e.v}
       [] e.k = "neg" -> {WNeg(a) : a \in Val(e.a, L, n)}
       [] e.k = "abs" -> {WAbs(a) : a \in Val(e.a, L, n)}
@@ -101,13 +105,13 @@ Fits(v, signed, w) == IF signed THEN WFitsS(v, w \div 8) ELSE WFitsU(v, w \div 8
 InShiftRange(v, w) == WFitsU(v, 1) /\ v[1] < w
 RECURSIVE ShiftsOK(_, _, _, _)
 ShiftsOK(e, L, n, w) ==
-    CASE e.k \in {"var", "reg", "const"} -> TRUE
+    CASE e.k \in {"var", "reg", "const", "field"} -> TRUE
       [] e.k \in {"neg", "abs"} -> ShiftsOK(e.a, L, n, w)
       [] e.k = "bin" -> /\ ShiftsOK(e.l, L, n, w) /\ ShiftsOK(e.r, L, n, w)
                         /\ (e.op \in {"lsh", "rsh"} => \A b \in Val(e.r, L, n) : InShiftRange(b, w))
 RECURSIVE FitsOK(_, _, _, _)
 FitsOK(e, L, n, w) ==
-    CASE e.k \in {"var", "reg", "const"} -> TRUE
+    CASE e.k \in {"var", "reg", "const", "field"} -> TRUE
       [] e.k = "neg" -> FitsOK(e.a, L, n, w)
       [] e.k = "abs" -> FitsOK(e.a, L, n, w) /\ \A a \in Val(e.a, L, n) : Fits(a, TRUE, w)
       [] e.k = "bin" ->
@@ -124,7 +128,7 @@ Expected(e, L, n, dstsize) == {WTrunc(v, dstsize) : v \in Val(e, L, n)}
 (* some // or % node is signed (as the DSL types it) and one of its operand values is negative *)
 RECURSIVE SignedDivNeg(_, _, _)
 SignedDivNeg(e, L, n) ==
-    CASE e.k \in {"var", "reg", "const"} -> FALSE
+    CASE e.k \in {"var", "reg", "const", "field"} -> FALSE
       [] e.k \in {"neg", "abs"} -> SignedDivNeg(e.a, L, n)
       [] e.k = "bin" ->
            \/ SignedDivNeg(e.l, L, n) \/ SignedDivNeg(e.r, L, n)
@@ -133,14 +137,89 @@ SignedDivNeg(e, L, n) ==
 (* some unary node (minus / abs) has an operand tree that contains an operand at most 4 bytes wide *)
 RECURSIVE UnaryOnNarrow(_)
 UnaryOnNarrow(e) ==
-    CASE e.k \in {"var", "reg", "const"} -> FALSE
+    CASE e.k \in {"var", "reg", "const", "field"} -> FALSE
       [] e.k \in {"neg", "abs"} -> Narrow(e.a) \/ UnaryOnNarrow(e.a)
       [] e.k = "bin" -> UnaryOnNarrow(e.l) \/ UnaryOnNarrow(e.r)
 (* some operand is a signed 32-bit register view (sw) whose value is negative *)
 RECURSIVE SwNegative(_, _, _)
 SwNegative(e, L, n) ==
     CASE e.k = "reg" -> e.kind = "sw" /\ WIsNeg(LeafVal(e, L[<<e.fd, e.off>>], n))
-      [] e.k \in {"var", "const"} -> FALSE
+      [] e.k \in {"var", "const", "field"} -> FALSE
       [] e.k \in {"neg", "abs"} -> SwNegative(e.a, L, n)
       [] e.k = "bin" -> SwNegative(e.l, L, n) \/ SwNegative(e.r, L, n)
+(* ======================= conditions and conditional blocks (C03) =========================== *)
+(* A condition is
+     [k |-> "cmp", op, l, r]     op in gt ge lt le ne eq, l and r expressions (without // and %, so
+                                 that each has exactly one exact value)
+     [k |-> "truth", e]          `with e:`  -  e # 0; with e = a & m this is the bit test
+     [k |-> "not", a]   [k |-> "and", l, r]   [k |-> "or", l, r]
+   A statement is [k |-> "mark", i] (marker i is set) or
+     [k |-> "with", c, body, hasels, els]   body runs iff c, els (if present) iff not c.
+   The precondition "the compared values fit the narrowest width involved": the comparison is signed
+   if the DSL types either side as signed; then both values must lie in [-2^(W-1), 2^(W-1)), otherwise
+   in [0, 2^W), W = 32 if either side contains an operand at most 4 bytes wide, else 64.           *)
+TheVal(e, L, n) == CHOOSE v \in Val(e, L, n) : TRUE
+CmpHolds(op, a, b) ==
+    CASE op = "gt" -> WSLt(b, a)  [] op = "ge" -> WSLe(b, a)
+      [] op = "lt" -> WSLt(a, b)  [] op = "le" -> WSLe(a, b)
+      [] op = "ne" -> a # b       [] op = "eq" -> a = b
+CmpWidth(l, r) == IF Narrow(l) \/ Narrow(r) THEN 32 ELSE 64
+RECURSIVE CondVal(_, _, _)
+CondVal(c, L, n) ==
+    CASE c.k = "cmp" -> CmpHolds(c.op, TheVal(c.l, L, n), TheVal(c.r, L, n))
+      [] c.k = "truth" -> ~WIsZero(TheVal(c.e, L, n))
+      [] c.k = "not" -> ~CondVal(c.a, L, n)
+      [] c.k = "and" -> CondVal(c.l, L, n) /\ CondVal(c.r, L, n)
+      [] c.k = "or" -> CondVal(c.l, L, n) \/ CondVal(c.r, L, n)
+(* is the expression itself well inside C01's precondition in the width of the comparison? *)
+OperandOK(e, L, n, w) == RingOnly(e) /\ ShiftsOK(e, L, n, w)
+RECURSIVE CondOK(_, _, _)
+CondOK(c, L, n) ==
+    CASE c.k = "cmp" ->
+           LET w == CmpWidth(c.l, c.r)  sg == Signed(c.l) \/ Signed(c.r) IN
+           /\ OperandOK(c.l, L, n, w) /\ OperandOK(c.r, L, n, w)
+           /\ Fits(TheVal(c.l, L, n), sg, w) /\ Fits(TheVal(c.r, L, n), sg, w)
+      [] c.k = "truth" ->
+           LET w == IF Narrow(c.e) THEN 32 ELSE 64 IN
+           OperandOK(c.e, L, n, w) /\ Fits(TheVal(c.e, L, n), Signed(c.e), w)
+      [] c.k = "not" -> CondOK(c.a, L, n)
+      [] c.k \in {"and", "or"} -> CondOK(c.l, L, n) /\ CondOK(c.r, L, n)
+
+(* the markers a statement list must set: [ok |-> all conditions met on the way were inside the
+   precondition, m |-> set of marker numbers] *)
+RECURSIVE ExecSeq(_, _, _, _, _)
+ExecStmt(s, L, n, acc) ==
+    IF s.k = "mark" THEN [ok |-> acc.ok, m |-> acc.m \cup {s.i}]
+    ELSE IF ~CondOK(s.c, L, n) THEN [ok |-> FALSE, m |-> acc.m]
+    ELSE IF CondVal(s.c, L, n) THEN ExecSeq(s.body, 1, L, n, acc)
+    ELSE IF s.hasels THEN ExecSeq(s.els, 1, L, n, acc)
+    ELSE acc
+ExecSeq(stmts, i, L, n, acc) ==
+    IF i > Len(stmts) \/ ~acc.ok THEN acc
+    ELSE ExecSeq(stmts, i + 1, L, n, ExecStmt(stmts[i], L, n, acc))
+Exec(stmts, L, n) == ExecSeq(stmts, 1, L, n, [ok |-> TRUE, m |-> {}])
+(* classification for the C03 known finding: some comparison has an sw register holding a negative
+   value on one side while the other side counts as 64 bits wide (an 8-byte operand or a bit field) *)
+RECURSIVE HasField(_)
+HasField(e) ==
+    CASE e.k = "field" -> TRUE
+      [] e.k \in {"var", "reg", "const"} -> FALSE
+      [] e.k \in {"neg", "abs"} -> HasField(e.a)
+      [] e.k = "bin" -> HasField(e.l) \/ HasField(e.r)
+WideSide(e) == ~Narrow(e) \/ HasField(e)
+RECURSIVE CondSwNeg(_, _, _)
+CondSwNeg(c, L, n) ==
+    CASE c.k = "cmp" -> \/ SwNegative(c.l, L, n) /\ WideSide(c.r)
+                        \/ SwNegative(c.r, L, n) /\ WideSide(c.l)
+      [] c.k = "truth" -> FALSE
+      [] c.k = "not" -> CondSwNeg(c.a, L, n)
+      [] c.k \in {"and", "or"} -> CondSwNeg(c.l, L, n) \/ CondSwNeg(c.r, L, n)
+RECURSIVE StmtsSwNeg(_, _, _, _)
+StmtsSwNeg(stmts, i, L, n) ==
+    IF i > Len(stmts) THEN FALSE
+    ELSE \/ StmtsSwNeg(stmts, i + 1, L, n)
+         \/ /\ stmts[i].k = "with"
+            /\ \/ CondSwNeg(stmts[i].c, L, n)
+               \/ StmtsSwNeg(stmts[i].body, 1, L, n)
+               \/ StmtsSwNeg(stmts[i].els, 1, L, n)
 =============================================================================
